@@ -33,13 +33,13 @@ MANIFEST = {
             'rendered in colour under each dictionary strategy and join layout; an independent lexer projects the output '
             'onto its "first document" and "second document" views, which must parse to exactly the generated inputs, '
             'and marks must be present iff the documents differ.',
-    'note': 'Bounded by N=4 (quick) / 5 (thorough); list-edit options are left at their defaults here (C01/C10 cover them).',
+    'note': 'Bounded by N=4 over 9 hostile scalars (quick); N=4 over 19 scalars and N=5 over 6 scalars (thorough); list-edit options are left at their defaults here (C01/C10 cover them).',
     'design_ref': 'DESIGN.md 4/C06',
 }
 
-QUICK_SCALARS = (1, 'ab', 'b', '', ' -> ~~++"', None, '\x1b[41m̶', True)
-QUICK_KEYS = ('a', 'ab', '"->')
-FULL_SCALARS = (1, 2, 'ab', 'b', '', '"', ' -> ', '~~', '++', '\n', '\x01', 'é', '̶', '̟', '\x1b[41m', None, True, 1.5)
+QUICK_SCALARS = (1, 'ab', 'b', '', ' -> ~~++"', None, '\x1b[41m̶', True, '\U0001F600z')
+QUICK_KEYS = ('a', 'ab', '"->\U00010000')
+FULL_SCALARS = (1, 2, 'ab', 'b', '', '\U0001F600', '"', ' -> ', '~~', '++', '\n', '\x01', 'é', '̶', '̟', '\x1b[41m', None, True, 1.5)
 FULL_KEYS = ('a', 'ab', '"', ' -> ', '̶')
 
 
@@ -265,11 +265,10 @@ def evaluate(case):
 
 def cases(tier):
     q = tier == 'quick'
-    ds_space = DocSpace(QUICK_SCALARS if q else FULL_SCALARS, QUICK_KEYS if q else FULL_KEYS[:3], 3)
-    budget = 4
-    spaces = [(ds_space, budget)]
-    if not q:
-        spaces.append((DocSpace(QUICK_SCALARS[:6], QUICK_KEYS[:2], 3), 5))
+    if q:
+        spaces = [(DocSpace(QUICK_SCALARS, QUICK_KEYS, 3), 4)]
+    else:
+        spaces = [(DocSpace(FULL_SCALARS, FULL_KEYS[:2], 3), 4), (DocSpace(QUICK_SCALARS[:6], QUICK_KEYS[:2], 3), 5)]
     idx = 0
     # mappings whose keys are renamed (same-length and different-length renames, with a second pair competing in the
     # matcher): the shape in which key edits, value edits and whole-pair removals/insertions are all in play
